@@ -11,6 +11,7 @@ import (
 	"fmt"
 	"math/big"
 	"os"
+	"path/filepath"
 	"sort"
 	"strings"
 
@@ -176,7 +177,7 @@ func (u *universe) add(name, class string, tx types.Tx, alphabet bool) int {
 // buildUniverse is a deterministic function of the tier: every process (parent and workers) builds the same bytes.
 func buildUniverse(thorough bool, cfgs []poolCfg) *universe {
 	u := &universe{byHash: map[common.Hash]int{}, pnames: map[common.Hash]string{}, bases: map[string]*base{}, validated: map[string]bool{}}
-	u.walDir = fmt.Sprintf("/dev/shm/C15-%d", os.Getpid())
+	u.walDir = filepath.Join(scratchDir(), fmt.Sprintf("chains-%d", os.Getpid()))
 	if err := os.MkdirAll(u.walDir, 0700); err != nil {
 		vk.Fatalf("scratch dir: %v", err)
 	}
@@ -192,6 +193,7 @@ func buildUniverse(thorough bool, cfgs []poolCfg) *universe {
 	for _, pc := range cfgs {
 		rec := kv.NewRecorder()
 		c, err := minichain.New(minichain.Options{IsTrie: true, Alloc: txkit.Alloc(initialBalance), Mempool: pc.mempool(), MempoolCache: pc.Cache,
+			WalDir:  u.walDir,                      // trie mode writes nothing there; an explicit directory keeps minichain from creating its own
 			Fixture: csnet.NewFixture([]int64{10}), // one validator: the size of the validator set is irrelevant here, signing dominates a commit
 			NewDB:   func(n string) dbm.DB { return rec.DB(n) }})
 		if err != nil {
@@ -252,6 +254,7 @@ func (u *universe) close() {
 		b.chain.Close()
 	}
 	os.RemoveAll(u.walDir)
+	os.Remove(scratchDir()) // only if nothing else lives there
 }
 
 func (u *universe) name(h common.Hash) string {
